@@ -573,15 +573,46 @@ func toV3AdditionalProperties(from openapi3.AdditionalProperties) openapi3.Addit
 }
 
 func convertRefsInV3SchemaRef(from *openapi3.SchemaRef) *openapi3.SchemaRef {
+	return convertRefsInSchemaRef(from, ToV3Ref)
+}
+
+// convertRefsInSchemaRef copies a schema written the OpenAPI 3 way (what additionalProperties
+// holds in both versions) with every reference in it rewritten by convert.
+func convertRefsInSchemaRef(from *openapi3.SchemaRef, convert func(string) string) *openapi3.SchemaRef {
 	if from == nil {
 		return nil
 	}
 	to := *from
-	to.Ref = ToV3Ref(to.Ref)
+	to.Ref = convert(to.Ref)
 	if to.Value != nil {
 		v := *from.Value
 		to.Value = &v
-		to.Value.AdditionalProperties = toV3AdditionalProperties(to.Value.AdditionalProperties)
+		v.AdditionalProperties = openapi3.AdditionalProperties{
+			Has:    v.AdditionalProperties.Has,
+			Schema: convertRefsInSchemaRef(v.AdditionalProperties.Schema, convert),
+		}
+		if from.Ref != "" {
+			// the value of a reference belongs to its target
+			return &to
+		}
+		v.Items = convertRefsInSchemaRef(v.Items, convert)
+		v.Not = convertRefsInSchemaRef(v.Not, convert)
+		if v.Properties != nil {
+			properties := make(openapi3.Schemas, len(v.Properties))
+			for name, property := range v.Properties {
+				properties[name] = convertRefsInSchemaRef(property, convert)
+			}
+			v.Properties = properties
+		}
+		for _, refs := range []*openapi3.SchemaRefs{&v.OneOf, &v.AnyOf, &v.AllOf} {
+			if *refs != nil {
+				converted := make(openapi3.SchemaRefs, len(*refs))
+				for i, ref := range *refs {
+					converted[i] = convertRefsInSchemaRef(ref, convert)
+				}
+				*refs = converted
+			}
+		}
 	}
 	return &to
 }
@@ -596,17 +627,7 @@ func fromV3AdditionalProperties(from openapi3.AdditionalProperties) openapi3.Add
 // convertRefsInV2SchemaRef is the inverse of convertRefsInV3SchemaRef: OpenAPI 2 keeps
 // additionalProperties as an OpenAPI 3 schema value whose references must point at OpenAPI 2 locations.
 func convertRefsInV2SchemaRef(from *openapi3.SchemaRef) *openapi3.SchemaRef {
-	if from == nil {
-		return nil
-	}
-	to := *from
-	to.Ref = FromV3Ref(to.Ref)
-	if to.Value != nil {
-		v := *from.Value
-		to.Value = &v
-		to.Value.AdditionalProperties = fromV3AdditionalProperties(to.Value.AdditionalProperties)
-	}
-	return &to
+	return convertRefsInSchemaRef(from, FromV3Ref)
 }
 
 var ref2To3 = map[string]string{
